@@ -167,6 +167,16 @@ func (r *Run) verifyImage(img *Image, idx int) *Violation {
 		r.harness = "materialize: " + err.Error()
 		return nil
 	}
+	if os.Getenv("VERIF_DEBUG_IMAGES") != "" {
+		var names []string
+		for _, fs := range img.Dirs {
+			for n, fi := range fs {
+				names = append(names, fmt.Sprintf("%s(%d)", n, fi.Size))
+			}
+		}
+		sort.Strings(names)
+		fmt.Fprintf(os.Stderr, "IMG %d %s %s phase=%q acked=%d n=%d files=%v\n", idx, img.Kind, img.At, img.Phase, img.Acked, img.NCommits, names)
+	}
 	ndir, nvdir := mapDir(r.dir), mapDir(r.vdir)
 	os.MkdirAll(ndir, 0o755)
 	os.MkdirAll(nvdir, 0o755)
@@ -324,15 +334,30 @@ func ExecuteCrash(t *testing.T, c *Case, prof *Profile, keepHist bool) Outcome {
 			r.stats.Probes["io:"+k] += uint64(v)
 		}
 		r.pmu.Unlock()
-		synctest.Test(t, func(t *testing.T) {
-			for i, img := range imgs {
-				if v := r.verifyImage(img, i); v != nil {
-					r.viol = v
-					return
-				}
-				r.stats.Checks++
+		for i, img := range imgs {
+			var v *Violation
+			func() {
+				defer func() {
+					if p := recover(); p != nil && v == nil && r.harness == "" {
+						// A failed Open can leave goroutines behind; that only matters
+						// (as harness trouble) when no violation was established.
+						r.harness = fmt.Sprintf("panic around verification bubble of image %d (%s): %v", i, img.At, p)
+					}
+				}()
+				synctest.Test(t, func(t *testing.T) {
+					v = r.verifyImage(img, i)
+				})
+			}()
+			if v != nil {
+				r.viol = v
+				r.harness = ""
+				break
 			}
-		})
+			if r.harness != "" {
+				break
+			}
+			r.stats.Checks++
+		}
 		if len(imgs) > 1 {
 			r.stats.NonTrivial = true
 		}
